@@ -144,7 +144,8 @@ class AllocTVUnit:
 
         # --- replay candidates
         r.extra["disagreements_checked"] = 0
-        for rec, model, why in sat:
+        r.extra["candidates"] = len(sat)
+        for rec, model, why in sat[:MAX_REPLAYS]:
             r.extra["disagreements_checked"] += 1
             vecs = T.special_vectors(rec["nvars"], model)
             res = T.native_eval(rec, vecs)
